@@ -1,7 +1,8 @@
 // C07 executor: decodes binary inputs with the real jsoncons decoders and prints what came out.
 //
 //   stdin :  one case per line   "<format> <hex bytes>"      format in {cbor,msgpack,ubjson,bson}
-//   stdout:  one line per case   "OK <mv_text>" | "ERR <error message>" | "EXC <what>"
+//   stdout:  one line per case   "OK <mv_text>[ !half:<bits>:<double bits>]" | "ERR <error message>" | "EXC <what>"
+//            (the !half note is added when a decoded half float's as_double() is not the value of its bits)
 //
 // Every case uses fresh objects.  The line is flushed per case so that, if the process dies
 // (sanitizer report, crash), the driver knows which input was being decoded: the first one
@@ -17,6 +18,38 @@
 
 using jsoncons::json;
 
+// exact widening binary16 -> binary64, written independently of jsoncons::binary::decode_half
+static uint64_t half_to_double_bits(uint16_t h) {
+    uint64_t s = (h >> 15) & 1, e = (h >> 10) & 0x1f, m = h & 0x3ff;
+    if (e == 0) {
+        if (m == 0) return s << 63;
+        int sh = 0;
+        while (!(m & 0x400)) { m <<= 1; ++sh; }
+        m &= 0x3ff;
+        return (s << 63) | (uint64_t(1023 - 15 - sh + 1) << 52) | (m << 42);
+    }
+    if (e == 0x1f) return (s << 63) | (uint64_t(0x7ff) << 52) | (m << 42);
+    return (s << 63) | ((e - 15 + 1023) << 52) | (m << 42);
+}
+
+// A half float is kept as 16 bits; what the user gets from as_double() must be the value those bits denote.
+static void check_halves(const json& j, std::string& note) {
+    if (j.type() == jsoncons::json_type::float16) {
+        uint16_t bits = j.cast<json::half_storage>().value();
+        double d = j.as_double();
+        uint64_t got; memcpy(&got, &d, 8);
+        uint64_t want = half_to_double_bits(bits);
+        bool nan_w = (want & 0x7ff0000000000000ULL) == 0x7ff0000000000000ULL && (want & 0xfffffffffffffULL);
+        if (nan_w ? !(d != d) : got != want) {
+            char b[80]; snprintf(b, sizeof b, " !half:%04x:%016llx", bits, (unsigned long long)got); note += b;
+        }
+    } else if (j.is_array()) {
+        for (const auto& e : j.array_range()) check_halves(e, note);
+    } else if (j.is_object()) {
+        for (const auto& kv : j.object_range()) check_halves(kv.value(), note);
+    }
+}
+
 static std::string one(const std::string& fmt, const std::vector<uint8_t>& in) {
     try {
         json j;
@@ -25,7 +58,9 @@ static std::string one(const std::string& fmt, const std::vector<uint8_t>& in) {
         else if (fmt == "ubjson") j = jsoncons::ubjson::decode_ubjson<json>(in);
         else if (fmt == "bson") j = jsoncons::bson::decode_bson<json>(in);
         else return "EXC unknown format " + fmt;
-        return "OK " + vf::mv_text(vf::to_mv(j));
+        std::string note;
+        check_halves(j, note);
+        return "OK " + vf::mv_text(vf::to_mv(j)) + note;
     } catch (const jsoncons::ser_error& e) {
         return "ERR " + vf::show(e.code().message());
     } catch (const std::bad_alloc& e) {
